@@ -1,7 +1,7 @@
 #!/bin/bash
 # Re-verifies every stored seeded change against the current /repo HEAD: the patch applies, the demo fails with it,
 # and the first check listed in meta.json "caught_by" reports a violation (quick tier, scratch worktree).
-# usage: tools/verify_seeded.sh [Sxx ...]   (default: all)
+# usage: [APPLY_ONLY=1] tools/verify_seeded.sh [Sxx ...]   (default: all; APPLY_ONLY: patch applies + demo fails)
 cd /verif
 ids="$@"; [ -z "$ids" ] && ids=$(ls seeded)
 for sid in $ids; do
@@ -9,8 +9,9 @@ for sid in $ids; do
   chk=$(python3 -c "import json;print(json.load(open('$d/meta.json'))['caught_by'][0])")
   WT=$(mktemp -d /tmp/mxver.XXXXXX); OUT=$(mktemp -d /tmp/mxverout.XXXXXX)
   git -C /repo worktree add -q --detach $WT HEAD
-  if ! git -C $WT apply $d/patch.diff 2>/dev/null; then echo "$sid PATCH-DOES-NOT-APPLY"; git -C /repo worktree remove --force $WT; rm -rf $OUT; continue; fi
+  if ! git -C $WT apply /verif/$d/patch.diff 2>/dev/null; then echo "$sid PATCH-DOES-NOT-APPLY"; git -C /repo worktree remove --force $WT; rm -rf $OUT; continue; fi
   (cd $WT && PYTHONPATH=$WT /venv/bin/python /verif/$d/demo.py > $OUT/demo.log 2>&1); drc=$?
+  if [ -n "$APPLY_ONLY" ]; then echo "$sid applies demo_rc=$drc"; git -C /repo worktree remove --force $WT; rm -rf $OUT; continue; fi
   MXMC_REPO=$WT MXMC_SCRATCH_OUT=$OUT VERIF_NO_GATE=1 /verif/check $chk > $OUT/chk.log 2>&1; rc=$?
   echo "$sid demo_rc=$drc $chk rc=$rc violations=$(grep -c '^VIOLATION' $OUT/chk.log)"
   git -C /repo worktree remove --force $WT; rm -rf $OUT
